@@ -39,6 +39,20 @@ type Ptr struct {
 	I int
 }
 
+// SymPtr is the address of C.E[Off+Idx] for a symbolic Idx in [0,N) over scalar cells (no forking: loads are ite-chains).
+type SymPtr struct {
+	C   *Cells
+	Off int
+	N   int
+	Idx *smt.Term
+}
+
+// AbsPtr is the address of one byte of an abstract buffer.
+type AbsPtr struct {
+	B   *AbsBuf
+	Idx *smt.Term
+}
+
 type Slice struct {
 	C   *Cells
 	Off int
